@@ -160,7 +160,7 @@ def make_body(job):
       v = job['v']
       assume(c.out[v] >= 1)
       before = c.nodes[v].load
-      s._HeapBalancerSink__Put(c.nodes[v])
+      B.release_method(s)(c.nodes[v])
       check('complete.decrement', c.nodes[v].load == before - 1)
       if c.nodes[v].index == s._size or True:
         if not down or v not in down:
